@@ -144,11 +144,11 @@ fn judge_for(h: Vec<E>) -> impl Fn(&EndState) -> Vec<(String, String)> + Sync {
 
 pub fn run(args: &Args) -> ! {
     if args.replay.is_some() {
-        let all = histories(3).into_iter().map(|h| (scenario(&h), Box::new(judge_for(h)) as Box<dyn Fn(&EndState) -> Vec<(String, String)> + Sync>)).collect();
+        let all = histories(4).into_iter().map(|h| (scenario(&h), Box::new(judge_for(h)) as Box<dyn Fn(&EndState) -> Vec<(String, String)> + Sync>)).collect();
         replay_scenario(args, "C30", all);
     }
     let dl = args.deadline();
-    let (max, bound) = args.tier.pick((2usize, 2usize), (3, 3));
+    let (max, bound) = args.tier.pick((3usize, 2usize), (4, 3));
     let bound = args.extra_usize("bound").unwrap_or(bound);
     let mut rep = Report::new("C30", "model_checking");
     let acc = Acc::new();
